@@ -22,7 +22,8 @@ class GeometricReservoirStorage(ReservoirStorage):
             store_targets=store_targets
         )
         if constant_probability is not None:
-            self.constant_probability = constant_probability
+            # a plain float: comparing a draw with a narrow NumPy float would round the draw to that type first
+            self.constant_probability = float(constant_probability)
         else:
             self.constant_probability = 1 / self.size
 
